@@ -13,13 +13,26 @@ CLUSTER = "Sorter"
 PROPS = "props/C18.v"
 N_QUICK = 600
 N_THOROUGH = 8000
-LEVEL_TEXT = ("partial: Coq theorems about a model of the sorter's I/O protocol (files, descriptors, handles; every I/O call a "
-              "step that may fail once) for all workloads and all fault positions, tied to /repo by running the real "
+LEVEL_TEXT = ("partial only in what the model covers: Coq theorems about a model of the sorter's I/O protocol (files, "
+              "descriptors, handles; every I/O call a step that may fail once), for all workloads/histories and all fault "
+              "positions: the fault surfaces as OSError from the operation in progress (add / iteration / close / writer "
+              "+= / writer close; ENOENT from os.remove in close tolerated), close() until it returns normally takes at "
+              "most two calls and leaves no file, descriptor or handle, and a MafWriter.close that returns normally (at "
+              "the first call or on retry) has written every record. The model is tied to /repo by running the real "
               "library with the same nine I/O entry points wrapped from outside and a fault injected at every call index "
-              "of small workloads in turn, with the temp directory and /proc/self/fd inspected around each run")
-LEVEL_NOTE = ("protocol model + instrumentation tie. Not modelled: the kernel (a failing close(2) is assumed to release the "
-              "descriptor, as on Linux), the content of a half-written spill file, garbage collection other than CPython "
-              "reference counting, more than one fault per run, faults in the writer's own output handle")
+              "of small workloads in turn, with the temp directory and the open descriptors inspected around each run")
+LEVEL_NOTE = ("proved about the protocol model; NOT modelled (hence the partial label): the kernel (a failing close(2) is "
+              "assumed to release the descriptor, as on Linux), the content of a half-written spill file and the stash "
+              "after a failed spill (such a sorter is 'tainted': only its close() is modelled; add/iteration on it are "
+              "reported as unmodelled and never as successful), garbage collection other than CPython reference "
+              "counting, more than one fault per run, faults in the writer's own output handle. Known limitation of "
+              "maf-lib outside the wording of the property: a sorting MafWriter whose sorter failed during a spill can "
+              "never be closed (every close() raises), so its spill files stay until exit. Proved refutation (not part of "
+              "the property as worded): when MafWriter.close succeeds only on retry after a failed os.remove, records of "
+              "the file that stayed registered are written twice. Since /repo re-reads spilled records with the writer's own "
+              "stringency, a Silent/Lenient writer whose spill failed at the data write of its first entry can be closed on "
+              "retry: the output then holds every record plus one empty line decoded from the truncated entry (classified "
+              "writer-output-has-junk-line-after-spill-fault; such tainted runs are judged by the oracle only)")
 RULE = ("workloads = histories of add / iterate(k pulls, then abandon) / close on Sorter (generic codec, distinct integer "
         "keys, 0-7 records, capacity 1..n+1, both spill policies, re-iteration, adding after iterating, close in the middle) "
         "and MafWriter with a sorting MafSorter (capacity lowered from outside, 0-6 records); each case first runs "
@@ -329,12 +342,20 @@ def _writer_run(case, fault):
                 break
         closed = out.final is not None
         text = out.final if closed else out.getvalue()
-        ids = [int(l.split("\t")[3][1:]) for l in text.splitlines()[2:]]
+        ids, junk = [], 0
+        for l in text.splitlines()[2:]:
+            f = l.split("\t")
+            if len(f) == 4 and f[3][1:].isdigit():
+                ids.append(int(f[3][1:]))
+            else:
+                junk += 1                 # a line that is not one of the records written (see LEVEL_NOTE)
         keyof = {i: k for k, i in case["recs"]}
         left = len(os.listdir(tmp))
         leak = len(_fds() - before)
         was_tainted = [-1] in closes
-        return {"adds": adds, "closes": closes, "out": [[keyof[i], i, 1] for i in ids], "closed": closed,
+        outrecs = [[keyof[i], i, 1] for i in ids]
+        return {"adds": adds, "closes": closes, "out": None if was_tainted else outrecs,
+                "closed": None if was_tainted else closed, "_out": outrecs, "_closed": closed, "_junk_lines": junk,
                 "final": None if was_tainted else [left, leak], "log": None if was_tainted else inj.log, "hit": inj.hit,
                 "_surfaced": surfaced, "_enoent": inj.enoent, "_real_closes": real_closes, "_written": written,
                 "_final": [left, leak], "_leaked_fds": sorted(_fds() - before)}
@@ -402,7 +423,7 @@ def _m_sorter(sx):
 def _m_writer(sx):
     adds, closes, out, closed, counts, log, hit = sx
     tainted = [-1] in closes
-    return {"adds": adds, "closes": closes, "out": out, "closed": bool(closed),
+    return {"adds": adds, "closes": closes, "out": None if tainted else out, "closed": None if tainted else bool(closed),
             "final": None if tainted else [counts[0], counts[1] + counts[2] + counts[3]],
             "log": None if tainted else log, "hit": (hit[0] if hit else None)}
 
@@ -445,11 +466,11 @@ def _judge(case, r, label):
     else:
         ok = [c for c in r["_real_closes"] if c == []]
         if ok:
-            got = [x[1] for x in r["out"]]
+            got = [x[1] for x in r["_out"]]
             missing = [i for i in r["_written"] if i not in got]
             if missing:
                 out.append("writer-lost-records %s: close() returned but %d written record(s) are not in the output" % (label, len(missing)))
-            if not r["closed"]:
+            if not r["_closed"]:
                 out.append("writer-output-not-closed %s" % label)
             if r["_final"][0]:
                 out.append("spill-file-left %s: %d file(s) after MafWriter.close() returned" % (label, r["_final"][0]))
@@ -475,10 +496,16 @@ def classify(case, obs):
         return "%s/%s/error" % (case["stream"], case["kind"])
     n = len(obs["base"]["log"] or [])
     size = "0" if n == 0 else ("1-15" if n < 16 else ("16-40" if n <= 40 else "41+"))
-    unclosable = any(r.get("_real_closes") and r["_real_closes"][-1] != [] for r in obs["runs"])
+    allruns = [obs["base"]] + obs["runs"]
+    unclosable = any(r.get("_real_closes") and r["_real_closes"][-1] != [] for r in allruns)
+    dup = any(r.get("_written") is not None and r.get("_real_closes") and r["_real_closes"][-1] == []
+              and len(r["_out"]) > len(r["_written"]) for r in allruns)
+    junk = any(r.get("_junk_lines") for r in allruns)
     return "%s/%s/%s/calls=%s%s%s" % (case["stream"], case["kind"], "sweep" if case["fault"] == "sweep" else "single",
                                       size, ("/enoent" if case.get("enoent") else "") + ("/nostdin" if case.get("nostdin") else ""),
-                                      "/writer-never-closes-after-spill-fault" if unclosable else "")
+                                      ("/writer-never-closes-after-spill-fault" if unclosable else "")
+                                      + ("/writer-retry-duplicates-records" if dup else "")
+                                      + ("/writer-output-has-junk-line-after-spill-fault" if junk else ""))
 
 
 def nontrivial(case, obs):
@@ -561,6 +588,9 @@ def corpus():
         {"stream": "corpus", "kind": "sorter", "cap": 2, "always": True, "stop": True, "ops": adds[:2] + [["iter", 4]],
          "fault": None, "nostdin": True},
         {"stream": "corpus", "kind": "writer", "cap": 2, "recs": [[1, 0], [0, 1]], "fault": None, "nostdin": True},
+        # witness of Coq theorem C18_writer_retry_duplicates_refuted: os.remove of the first spill file fails (EIO) in
+        # the first MafWriter.close(); the retry returns normally and the output has 7 lines for 5 records
+        {"stream": "corpus", "kind": "writer", "cap": 2, "recs": [[3, 0], [1, 1], [2, 2], [5, 3], [4, 4]], "fault": [39, 0]},
         {"stream": "corpus", "kind": "sorter", "cap": 2, "always": True, "stop": True, "ops": adds + [["iter", 7]],
          "fault": "sweep", "enoent": False, "nostdin": True},
     ]
